@@ -123,11 +123,42 @@ func propC06(c *Ctx) {
 
 	// ---- R6.2 ---------------------------------------------------------
 	c.Rule("R6.2", "`stop > 0 && position >= stop → return ErrDone` is passed before every source call and SQL-writing call of the iteration", 4)
+	// the stop handed to a helper of the position as a parameter (local.reached(task.stop))
+	isStopV := func(v ssa.Value, f *types.Var) bool {
+		if isStopLoad(v, f) {
+			return true
+		}
+		r := m.reg.Resolve(stripNum(v))
+		return r != v && isStopLoad(stripNum(r), f)
+	}
 	_, stopZero := m.cmpEdges(func(b *ssa.BinOp) bool {
 		n, ok := constInt(b.Y)
-		return b.Op == token.GTR && isStopLoad(b.X, fStop) && ok && n == 0
+		return b.Op == token.GTR && isStopV(b.X, fStop) && ok && n == 0
 	})
-	isPos := func(v ssa.Value) bool { return m.isLatNum(v) }
+	isPos := func(v ssa.Value) bool {
+		if m.isLatNum(v) {
+			return true
+		}
+		// the number member of the position value, read inside a helper of that value (m.num in mark.reached)
+		base, path, ok := memberPath(cv(v))
+		for i := 0; ok && i < 3; i++ {
+			r := m.reg.Resolve(stripConv(base.v))
+			if r == base.v {
+				break
+			}
+			b2, p2, ok2 := memberPath(cv(r))
+			if !ok2 {
+				base = cv(stripConv(r))
+				break
+			}
+			base, path = b2, append(p2, path...)
+		}
+		if !ok || !base.top() || len(path) != 1 || !m.isLatPosition(stripConv(base.v)) {
+			return false
+		}
+		st, isSt := base.v.Type().Underlying().(*types.Struct)
+		return isSt && path[0] < st.NumFields() && isIntType(st.Field(path[0]).Type())
+	}
 	assumed := map[ssa.Value]bool{} // the scenario "stop > 0 and position >= stop", for conditions used as values
 	for _, f := range m.reg.Funcs() {
 		allInstrs(f, func(in ssa.Instruction) {
@@ -135,22 +166,22 @@ func propC06(c *Ctx) {
 			if !ok {
 				return
 			}
-			if n, okc := constInt(b.Y); okc && n == 0 && b.Op == token.GTR && isStopLoad(b.X, fStop) {
+			if n, okc := constInt(b.Y); okc && n == 0 && b.Op == token.GTR && isStopV(b.X, fStop) {
 				assumed[b] = true
 			}
-			if b.Op == token.GEQ && isPos(b.X) && isStopLoad(b.Y, fStop) {
+			if b.Op == token.GEQ && isPos(b.X) && isStopV(b.Y, fStop) {
 				assumed[b] = true
 			}
-			if b.Op == token.LSS && isPos(b.X) && isStopLoad(b.Y, fStop) {
+			if b.Op == token.LSS && isPos(b.X) && isStopV(b.Y, fStop) {
 				assumed[b] = false
 			}
 		})
 	}
 	_, notDone := m.cmpEdges(func(b *ssa.BinOp) bool {
-		return b.Op == token.GEQ && isPos(b.X) && isStopLoad(b.Y, fStop)
+		return b.Op == token.GEQ && isPos(b.X) && isStopV(b.Y, fStop)
 	})
 	lt2, _ := m.cmpEdges(func(b *ssa.BinOp) bool {
-		return b.Op == token.LSS && isPos(b.X) && isStopLoad(b.Y, fStop)
+		return b.Op == token.LSS && isPos(b.X) && isStopV(b.Y, fStop)
 	})
 	notDone = append(notDone, lt2...)
 	errDone := w.Global("shovel", "ErrDone")
